@@ -519,6 +519,24 @@ def r4_errors(text, hits):
 
 def r6_destructuring_assign(text, hits):
     """`(a, b) = e;` -> `let (a__v, b__v) = e; a = a__v; b = b__v;`"""
+    # `_ = expr;` (discarding assignment) -> `let _ = expr;`
+    def repl_us(mm):
+        _count(hits, 'R6.underscore_assign')
+        return 'let _ ='
+    mk = mask(text)
+    out = []
+    last = 0
+    for mm in re.finditer(r'(?<![A-Za-z0-9_])_\s*=(?![=>])', text):
+        if mk[mm.start()] != CODE:
+            continue
+        before = text[max(0, mm.start() - 8):mm.start()]
+        if re.search(r'let\s+(mut\s+)?$', before):
+            continue
+        out.append(text[last:mm.start()])
+        out.append(repl_us(mm))
+        last = mm.end()
+    out.append(text[last:])
+    text = ''.join(out)
     rx = re.compile(r'(?m)^(\s*)\(\s*([A-Za-z_][A-Za-z0-9_\.]*(?:\s*,\s*[A-Za-z_][A-Za-z0-9_\.]*)+)\s*\)\s*=(?![=>])')
     while True:
         m = mask(text)
